@@ -59,6 +59,61 @@ impl Resampler for Lin {
         0
     }
 }
+/// Three-channel variants of `Lin` over the library's OTHER `ResampleState` impls (array, `Vec`,
+/// spilled `SmallVec`): every channel carries the same decoded value, the encoder writes the XOR of
+/// the three channels - the channel value when all agree, something else when one of them was not
+/// added / divided / reset like the others.  Same files as `Lin` as long as the library is right.
+fn lin_decode(payload: &[u8]) -> u64 {
+    let k = payload.len().min(4);
+    let mut v = 0u64;
+    for i in (0..k).rev() {
+        v = v * 256 + u64::from(payload[i]);
+    }
+    v
+}
+fn lin_encode(p: usize, item: u64) -> Vec<u8> {
+    let k = p.min(4);
+    let mut out = vec![0u8; p];
+    let mut v = item;
+    for b in out.iter_mut().take(k) {
+        *b = (v % 256) as u8;
+        v /= 256;
+    }
+    out
+}
+macro_rules! lin_variant {
+    ($name:ident, $ty:ty, $mk:expr, $zero:expr) => {
+        #[derive(Debug, Clone)]
+        struct $name {
+            p: usize,
+        }
+        impl Decoder for $name {
+            type Item = $ty;
+            fn decode_payload(&mut self, payload: &[u8]) -> $ty {
+                let v = lin_decode(payload);
+                let f: fn(u64) -> $ty = $mk;
+                f(v)
+            }
+        }
+        impl Encoder for $name {
+            type Item = $ty;
+            fn encode_item(&mut self, item: &$ty) -> Vec<u8> {
+                lin_encode(self.p, item.iter().fold(0u64, |a, b| a ^ *b))
+            }
+        }
+        impl Resampler for $name {
+            type State = $ty;
+            fn state(&self) -> $ty {
+                let f: fn(u64) -> $ty = $mk;
+                f($zero)
+            }
+        }
+    };
+}
+lin_variant!(LinArr, [u64; 3], |v| [v, v, v], 0);
+lin_variant!(LinVec, Vec<u64>, |v| vec![v, v, v], 0);
+lin_variant!(LinSv, smallvec::SmallVec<u64, 2>, |v| smallvec::SmallVec::from_iter([v, v, v]), 0);
+
 // make sure the trait is the library's own impl for u64
 fn _assert_state<T: ResampleState<Item = u64>>() {}
 fn _check() {
@@ -310,13 +365,31 @@ impl Runner {
         // `name=`: what the user calls the series; a name with a dot ("s.v2") is stored under its stem
         let user_name = a.get("name").map_or(NAME, |s| s.as_str());
         let path = self.dir.join(user_name);
-        let b = ByteSeries::builder()
-            .payload_size(p)
-            .create_new(true)
-            .with_downsampled_cache(Lin { p }, caches);
-        let res = match a.get("hdr").map_or("any", |s| s.as_str()) {
-            "any" => b.with_any_header().open(path),
-            h => b.with_header(unhex(h).unwrap()).open(path),
+        // `hdr=a>b>..`: the header options are given by that chain of builder calls, in that order
+        // (`any` = with_any_header(), hex = with_header(..)); `rs=`: which resampler feeds the caches
+        let hdr = a.get("hdr").map_or("any", |s| s.as_str()).to_string();
+        let rs = a.get("rs").map_or("u64", |s| s.as_str()).to_string();
+        macro_rules! create {
+            ($r:expr) => {{
+                let mut b = ByteSeries::builder()
+                    .payload_size(p)
+                    .create_new(true)
+                    .with_downsampled_cache($r, caches)
+                    .with_any_header();
+                for h in hdr.split('>') {
+                    b = match h {
+                        "any" => b.with_any_header(),
+                        h => b.with_header(unhex(h).unwrap()),
+                    };
+                }
+                b.open(path)
+            }};
+        }
+        let res = match rs.as_str() {
+            "arr" => create!(LinArr { p }),
+            "vec" => create!(LinVec { p }),
+            "sv" => create!(LinSv { p }),
+            _ => create!(Lin { p }),
         };
         match res {
             Ok((s, hdr)) => {
@@ -341,13 +414,24 @@ impl Runner {
         let hdr = a.get("hdr").map_or("any", |s| s.as_str()).to_string();
         let pspec = a.get("p").map_or("any", |s| s.as_str()).to_string();
 
+        let rs = a.get("rs").map_or("u64", |s| s.as_str()).to_string();
         macro_rules! finish {
             ($b:expr, $p:expr) => {{
-                let b = $b.with_downsampled_cache(Lin { p: $p }, Self::configs(&caches_spec));
-                let b = match hdr.as_str() {
-                    "any" => b.with_any_header(),
-                    h => b.with_header(unhex(h).unwrap()),
-                };
+                match rs.as_str() {
+                    "arr" => finish!($b, $p, LinArr { p: $p }),
+                    "vec" => finish!($b, $p, LinVec { p: $p }),
+                    "sv" => finish!($b, $p, LinSv { p: $p }),
+                    _ => finish!($b, $p, Lin { p: $p }),
+                }
+            }};
+            ($b:expr, $p:expr, $r:expr) => {{
+                let mut b = $b.with_downsampled_cache($r, Self::configs(&caches_spec)).with_any_header();
+                for h in hdr.split('>') {
+                    b = match h {
+                        "any" => b.with_any_header(),
+                        h => b.with_header(unhex(h).unwrap()),
+                    };
+                }
                 let b = match cb.as_str() {
                     "T" => b.with_callback_on_recoverable_corruption(Box::new(|| true)),
                     "F" => b.with_callback_on_recoverable_corruption(Box::new(|| false)),
